@@ -201,12 +201,97 @@ pub fn diff_case() -> BoxedStrategy<DiffCase> {
         .boxed()
 }
 
+// ------------------------------------------------------------------------------------------
+// model-free laws on the less travelled entry points
+
+#[derive(Serialize, Deserialize, Debug, Clone)]
+pub struct LawCase {
+    pub a_day: i64,
+    pub a_ns: i128,
+    pub b_day: i64,
+    pub b_ns: i128,
+    /// unit for the difference (day..nanosecond) resp. the rounding (day..nanosecond)
+    pub unit: U,
+    pub inc: u32,
+    /// index into LAW_CALENDARS
+    pub cal: u8,
+}
+pub const LAW_CALENDARS: [&str; 8] = ["gregory", "japanese", "hebrew", "persian", "roc", "coptic", "indian", "buddhist"];
+pub struct LawSub;
+impl SubCheck for LawSub {
+    type Case = LawCase;
+    fn name(&self) -> &'static str {
+        "laws"
+    }
+    fn eval(&self, c: &LawCase) -> Outcome {
+        use std::str::FromStr;
+        let mut o = Outcome::pass().nontrivial(true);
+        let (Ok(a), Ok(b)) = (plain_datetime(Dt { day: c.a_day, ns: c.a_ns }), plain_datetime(Dt { day: c.b_day, ns: c.b_ns })) else {
+            return o.fail("C05/laws/construct", "Ok", "Err");
+        };
+        // (1) a difference in days or time units does not involve the calendar: two date-times carrying the same
+        //     non-ISO calendar differ by exactly what their ISO twins differ by
+        let cal = temporal_rs::Calendar::from_str(LAW_CALENDARS[c.cal as usize % LAW_CALENDARS.len()]).expect("calendar");
+        let (Ok(ac), Ok(bc)) = (a.with_calendar(cal.clone()), b.with_calendar(cal)) else {
+            return o.fail("C05/laws/with_calendar", "Ok", "Err");
+        };
+        let st = diff_settings(Some(unit(c.unit)), None, None, None);
+        for since in [false, true] {
+            let (iso_r, cal_r) = if since { (a.since(&b, st), ac.since(&bc, st)) } else { (a.until(&b, st), ac.until(&bc, st)) };
+            let nm = if since { "since" } else { "until" };
+            match (iso_r, cal_r) {
+                (Ok(x), Ok(y)) => chk!(o, duration_fields(&x) == duration_fields(&y), format!("C05/laws/{nm}/calendar-dependent"), format!("{:?}", duration_fields(&x)), format!("{:?}", duration_fields(&y))),
+                (Err(x), Err(y)) => chk!(o, x.kind() == y.kind(), format!("C05/laws/{nm}/calendar-dependent-error-kind"), kind_name(x.kind()), kind_name(y.kind())),
+                (x, y) => {
+                    o = o.fail(
+                        format!("C05/laws/{nm}/calendar-dependent-verdict"),
+                        format!("{:?}", x.map(|d| duration_fields(&d)).map_err(|e| err_str(&e))),
+                        format!("{:?}", y.map(|d| duration_fields(&d)).map_err(|e| err_str(&e))),
+                    )
+                }
+            }
+        }
+        o = o.class("law:day/time difference independent of the calendar");
+        // (2) the rounding mode that applies when none is given is halfExpand
+        let mut opts = temporal_rs::options::RoundingOptions::default();
+        opts.smallest_unit = Some(unit(c.unit));
+        opts.increment = temporal_rs::options::RoundingIncrement::try_new(c.inc).ok();
+        let mut explicit = opts;
+        explicit.rounding_mode = Some(temporal_rs::options::RoundingMode::HalfExpand);
+        match (a.round(opts), a.round(explicit)) {
+            (Ok(x), Ok(y)) => chk!(o, dt_of(&x) == dt_of(&y), "C05/laws/round/default-mode-is-not-halfExpand", format!("{:?}", dt_of(&y)), format!("{:?}", dt_of(&x))),
+            (Err(x), Err(y)) => chk!(o, x.kind() == y.kind(), "C05/laws/round/default-mode-error-kind", kind_name(y.kind()), kind_name(x.kind())),
+            (x, y) => o = o.fail("C05/laws/round/default-mode-verdict", format!("{:?}", y.map(|d| dt_of(&d)).map_err(|e| err_str(&e))), format!("{:?}", x.map(|d| dt_of(&d)).map_err(|e| err_str(&e)))),
+        }
+        o.class("law:default rounding mode")
+    }
+}
+
+pub fn law_case() -> BoxedStrategy<LawCase> {
+    // ISO years 1..=9000 keep every calendar of the list cheap and inside its era tables
+    let day = to_days(1, 1, 1)..=to_days(9000, 12, 31);
+    (day, gen::ns_of_day(), -800i64..=800, gen::ns_of_day(), gen::unit_in(3, 9), 0usize..64, 0u8..8, prop::bool::weighted(0.5))
+        .prop_map(|(a_day, a_ns, dd, b_ns, unit, ii, cal, tie)| {
+            let incs: Vec<u32> = match unit.max_increment() {
+                Some(m) => gen::divisors_below(m).into_iter().map(|x| x as u32).collect(),
+                None => vec![1],
+            };
+            let inc = incs[ii * incs.len() / 64];
+            // half of the receivers sit exactly on a tie of (unit, increment) counted from midnight
+            let q = inc as i128 * unit.ns();
+            let a_ns = if tie && q % 2 == 0 && unit != U::Day { (a_ns - a_ns.rem_euclid(q) + q / 2).min(DAY - 1) } else if tie && unit == U::Day { DAY / 2 } else { a_ns };
+            LawCase { a_day, a_ns, b_day: a_day + dd, b_ns, unit, inc, cal }
+        })
+        .boxed()
+}
+
 pub fn run(ctx: &mut Ctx) {
-    ctx.rule = "add/subtract: generated (date-time at ns resolution, valid duration with date fields up to 2^31+-k and time fields up to 2^53 s, overflow) against exact-carry AddDateTime in unbounded integers; until/since: generated pairs (classes: time-of-day order opposite to date order, same date, 1 ns apart, month ends) x all ten largest units against DifferenceISODateTime + laws (sign-uniform, time part < 24 h for date largest units, a.add(a.until(b)) == b, since == -until); round: the PlainDateTime.round cases of C07 (multiples counted within the day, carry into the next day, RangeError when the carry leaves the range). non-trivial = time order opposite to date order, carry across midnight, start day >= 29, same date, or within 2 days of a limit.".into();
+    ctx.rule = "add/subtract: generated (date-time at ns resolution, valid duration with date fields up to 2^31+-k and time fields up to 2^53 s, overflow) against exact-carry AddDateTime in unbounded integers; until/since: generated pairs (classes: time-of-day order opposite to date order, same date, 1 ns apart, month ends) x all ten largest units against DifferenceISODateTime + laws (sign-uniform, time part < 24 h for date largest units, a.add(a.until(b)) == b, since == -until); round: the PlainDateTime.round cases of C07 (multiples counted within the day, carry into the next day, RangeError when the carry leaves the range); laws: a day / time-unit difference of two date-times carrying the same non-ISO calendar (8 calendars) equals that of their ISO twins, and round() without a rounding mode equals round() with halfExpand (half of the receivers exactly on a tie). non-trivial = time order opposite to date order, carry across midnight, start day >= 29, same date, or within 2 days of a limit.".into();
     let t = ctx.tier;
     ctx.run_prop(&AddSub, &add_case, t.pick(800_000, 30_000_000));
     ctx.run_prop(&DiffSub, &diff_case, t.pick(800_000, 30_000_000));
     ctx.run_prop(&crate::props::c07::PubSub, &crate::props::c07::dt_round_case, t.pick(400_000, 10_000_000));
+    ctx.run_prop(&LawSub, &law_case, t.pick(100_000, 3_000_000));
 }
 
 pub fn replay(ctx: &mut Ctx, sub: &str, case: &Value) -> bool {
@@ -214,6 +299,7 @@ pub fn replay(ctx: &mut Ctx, sub: &str, case: &Value) -> bool {
         "add" => ctx.replay_case(&AddSub, case),
         "until" => ctx.replay_case(&DiffSub, case),
         "public" => ctx.replay_case(&crate::props::c07::PubSub, case),
+        "laws" => ctx.replay_case(&LawSub, case),
         _ => false,
     }
 }
